@@ -24,8 +24,22 @@ Lemma op_names_ok :
   map (fun kv => length (fst kv)) marker_op_names = [15; 17; 12; 16; 18; 20; 15; 18; 23; 10; 13]%nat.
 Proof. vm_compute. split; reflexivity. Qed.
 
-Lemma ops_by_length_ok : marker_ops_by_length = [8; 1; 3; 4; 5; 7; 9; 2; 6].
-Proof. reflexivity. Qed.
+(* the table parseMarkerOp walks: every entry is one of the nine operators with a fixed
+   spelling, and the text it gives to accept() is that operator's String().  Nothing is
+   assumed about the ORDER of the table: that the order is adequate is the content of
+   parse_op_text below, which is proved against whatever order the sources have. *)
+Definition fixed_ops : list N := [1; 2; 3; 4; 5; 6; 7; 8; 9].
+Lemma op_trial_ok :
+  forallb (fun p => existsb (N.eqb (fst p)) fixed_ops && bytes_eqb (snd p) (op_string (fst p))) marker_op_trial = true.
+Proof. vm_compute. reflexivity. Qed.
+
+Lemma op_trial_range : forall o, In o marker_ops_by_length -> In o fixed_ops.
+Proof.
+  intros o H. unfold marker_ops_by_length in H. apply in_map_iff in H. destruct H as [[o' t] [E H]]. cbn in E. subst o'.
+  pose proof op_trial_ok as K. rewrite forallb_forall in K. specialize (K _ H). cbn [fst snd] in K.
+  apply andb_prop in K. destruct K as [K _]. apply existsb_exists in K. destruct K as [x [Hx E]].
+  apply N.eqb_eq in E. subst. exact Hx.
+Qed.
 
 (* every marker variable of the spec is a key of environmentVariables bound to the
    platform value of the same name (extra: no value) *)
@@ -292,7 +306,7 @@ Section Parser.
     - cbn [ws_bytes map app head_ok]. destruct b; cbn; tauto.
   Qed.
 
-  Lemma first_op_none_on_not : forall t, first_op marker_ops_by_length (110 :: 111 :: 116 :: t) = None.
+  Lemma first_op_none_on_not : forall t, first_op marker_op_trial (110 :: 111 :: 116 :: t) = None.
   Proof. intros t. vm_compute. reflexivity. Qed.
 
   Lemma parse_op_text : forall o wn W rest, all_ws W = true -> head_ok rest ->
@@ -602,18 +616,18 @@ Section Parser.
         inversion H; subst. apply first_accepting_length in F. lia.
   Qed.
 
-  Lemma op_strings_nonempty : forallb (fun o => negb (is_nil (op_string o))) marker_ops_by_length = true.
+  Lemma op_strings_nonempty : forallb (fun p : N * bytes => negb (is_nil (snd p))) marker_op_trial = true.
   Proof. vm_compute. reflexivity. Qed.
 
   Lemma first_op_length : forall ops s o r,
-    forallb (fun o => negb (is_nil (op_string o))) ops = true ->
-    first_op ops s = Some (o, r) -> (length r < length s)%nat /\ In o ops.
+    forallb (fun p : N * bytes => negb (is_nil (snd p))) ops = true ->
+    first_op ops s = Some (o, r) -> (length r < length s)%nat /\ In o (map fst ops).
   Proof.
-    induction ops as [|x ops IH]; intros s o r Hne H; [discriminate|].
-    cbn [forallb] in Hne. apply andb_prop in Hne. destruct Hne as [Hx Hne].
-    cbn [first_op] in H. destruct (strip_prefix (op_string x) s) eqn:E.
+    induction ops as [|[x t] ops IH]; intros s o r Hne H; [discriminate|].
+    cbn [forallb snd] in Hne. apply andb_prop in Hne. destruct Hne as [Hx Hne].
+    cbn [first_op] in H. destruct (strip_prefix t s) eqn:E.
     - inversion H; subst. apply strip_prefix_length in E.
-      destruct (op_string o); [discriminate|]. cbn [length] in E. split; [lia | left; reflexivity].
+      destruct t; [discriminate|]. cbn [length] in E. split; [lia | left; reflexivity].
     - destruct (IH s o r Hne H) as [A B]. split; [exact A | right; exact B].
   Qed.
 
@@ -621,7 +635,7 @@ Section Parser.
     parse_marker_op s = Ok (o, r) -> (length r < length s)%nat /\ (In o marker_ops_by_length \/ o = OpNotIn).
   Proof.
     intros s o r H. unfold parse_marker_op in H. pose proof (trim_left_length s) as T.
-    destruct (first_op marker_ops_by_length (trim_left s)) as [[o' r']|] eqn:F.
+    destruct (first_op marker_op_trial (trim_left s)) as [[o' r']|] eqn:F.
     - inversion H; subst. destruct (first_op_length _ _ _ _ op_strings_nonempty F) as [A B].
       split; [lia | left; exact B].
     - destruct (strip_prefix kw_not (trim_left s)) as [s1|] eqn:E1; [|discriminate].
@@ -764,7 +778,7 @@ Section Parser.
     Lemma parse_marker_op_no_fuel : forall s, parse_marker_op s <> OutOfFuel.
     Proof.
       intros s. unfold parse_marker_op.
-      destruct (first_op marker_ops_by_length (trim_left s)); [discriminate|].
+      destruct (first_op marker_op_trial (trim_left s)); [discriminate|].
       destruct (strip_prefix kw_not (trim_left s)) as [s1|]; [|discriminate].
       destruct (Nat.eqb (length (trim_left s1)) (length s1)); [discriminate|].
       destruct (strip_prefix kw_in (trim_left s1)); discriminate.
@@ -963,7 +977,7 @@ Section Parser.
     destruct hc.
     - destruct (Hc eq_refl) as [b E]. rewrite E. exists b. reflexivity.
     - specialize (Ht eq_refl). destruct Hv as [Hv|Hv].
-      + rewrite ops_by_length_ok in Hv. cbn [In] in Hv.
+      + apply op_trial_range in Hv. cbn [In fixed_ops] in Hv.
         repeat (destruct Hv as [Hv|Hv]; [subst o; try (exfalso; apply Ht; reflexivity); cbn; eexists; reflexivity|]).
         destruct Hv.
       + subst o. cbn. eexists. reflexivity.
@@ -1020,7 +1034,7 @@ Section Parser.
     Lemma parse_marker_op_no_panic : forall s p, parse_marker_op s <> Panic p.
     Proof.
       intros s p. unfold parse_marker_op.
-      destruct (first_op marker_ops_by_length (trim_left s)); [discriminate|].
+      destruct (first_op marker_op_trial (trim_left s)); [discriminate|].
       destruct (strip_prefix kw_not (trim_left s)) as [s1|]; [|discriminate].
       destruct (Nat.eqb (length (trim_left s1)) (length s1)); [discriminate|].
       destruct (strip_prefix kw_in (trim_left s1)); discriminate.
